@@ -200,6 +200,65 @@ def c02_oracle(case, obs):
                                 % (label, k, len(st["got"]), len(st["accepted"])), None))
                 elif st["eof"] and len(st["got"]) != len(st["accepted"]):
                     out.append(("%s: EOF after %d of %d bytes" % (label, len(st["got"]), len(st["accepted"])), None))
+    out.extend(graceful_drop_rule(case, obs))
+    return out
+
+
+def graceful_drop_rule(case, obs):
+    """'a drop while no inbound data is unread is graceful': when a side that still holds both
+    halves drops its read half (or the whole stream) after having read every byte the peer's writes
+    accepted so far, it must not send a RST (visible on a held link right after that step)."""
+    out = []
+    cfg = case["cfg"]
+    if cfg["mode"] != "remote":
+        return out
+    _, chost, shost = F.prologue(cfg)
+    res = {(r[0], r[1], r[2]): r[3] for r in obs["res"]}
+    acc = {F.CLIENT_SID: 0, F.SERVER_SID: 0}      # bytes accepted by writes of this stream id
+    got = {F.CLIENT_SID: 0, F.SERVER_SID: 0}      # bytes returned by reads of this stream id
+    intact = {F.CLIENT_SID: True, F.SERVER_SID: True}
+    peer = {F.CLIENT_SID: F.SERVER_SID, F.SERVER_SID: F.CLIENT_SID}
+    host_of = {F.CLIENT_SID: chost, F.SERVER_SID: shost}
+    held = False
+    errors = False
+
+    def nrst(k, host):
+        if k < 0:
+            return 0
+        return sum(1 for a, b, msgs in obs["post"][k][0] for m in msgs if m[1] == "rst" and m[0] == host)
+
+    for k, st in enumerate(case["steps"]):
+        for a in st["ctl"]:
+            if a[0] == "hold":
+                held = True
+            elif a[0] in ("release", "partition", "partition_oneway"):
+                held = a[0] != "release" and held
+                if a[0] != "hold":
+                    errors = errors or a[0].startswith("partition")
+        for h in (0, 1):
+            for i, cmd in enumerate(st.get("hosts", {}).get(str(h), [])):
+                r = res.get((k, h, i))
+                nm = cmd[0]
+                if nm in ("count", "count_on"):
+                    continue
+                sid = cmd[1]
+                if nm in ("try_write", "write") and isinstance(r, list) and r[0] == "ok":
+                    acc[sid] += r[1]
+                elif nm == "read" and isinstance(r, list) and r[0] == "ok":
+                    got[sid] += len(r[1])
+                elif isinstance(r, list) and r[0] == "err" and r[1] not in ("WouldBlock",):
+                    errors = True
+                if nm in ("drop", "drop_r") and r == "none":
+                    if (intact[sid] and held and not errors and got[sid] == acc[peer[sid]]
+                            and nrst(k, host_of[sid]) > nrst(k - 1, host_of[sid])
+                            and not any(c2[0] in ("drop", "drop_r") and c2[1] == sid
+                                        for c2 in st["hosts"].get(str(h), [])[:i])):
+                        out.append(("step %d: stream %d was dropped after reading all %d bytes its peer had written "
+                                    "(no inbound data unread), yet the drop sent a RST instead of closing gracefully"
+                                    % (k, sid, got[sid]), None))
+                    intact[sid] = False
+                elif nm in ("drop_w",) and r == "none":
+                    intact[sid] = False
     return out
 
 
@@ -245,7 +304,8 @@ class Spec(PropSpec):
             perms = ctx.rng.sample(perms, 260)
         cases = list(perms)
         for i in range(n):
-            cases.append(F.gen_random(ctx.rng) if i % 2 else F.gen_complete(ctx.rng))
+            r = i % 5
+            cases.append(F.gen_reqresp(ctx.rng) if r == 4 else (F.gen_random(ctx.rng) if r % 2 else F.gen_complete(ctx.rng)))
         return cases
 
     def to_model(self, case, obs):
